@@ -78,10 +78,10 @@ Stationary(coll, M, K, X, den) == \A i \in M : ResidualSum(coll, M, K, X, den, i
 (* Exact solution with piece `pin` held at 0: normal equations (scaled by  *)
 (* L) for the other pieces, solved by Cramer's rule.                       *)
 (***************************************************************************)
-RECURSIVE SortSeq(_)
+RECURSIVE AscSeq(_)
 MinS(X) == CHOOSE x \in X : \A y \in X : x <= y
 MaxS(X) == CHOOSE x \in X : \A y \in X : y <= x
-SortSeq(X) == IF X = {} THEN <<>> ELSE <<MinS(X)>> \o SortSeq(X \ {MinS(X)})
+AscSeq(X) == IF X = {} THEN <<>> ELSE <<MinS(X)>> \o AscSeq(X \ {MinS(X)})
 
 Coef(coll, M, K, i, j) ==      \* coefficient of x_j in piece i's equation, times L
     SumOver({h \in K : i \in AtM(coll, M, h) /\ j \in AtM(coll, M, h)},
@@ -102,7 +102,7 @@ Det(A) ==
     ELSE SumOver(1..Len(A), LAMBDA c : (IF c % 2 = 1 THEN 1 ELSE -1) * A[1][c] * Det(Minor(A, c)))
 
 Solve(coll, M, K, pin) ==
-    LET U == SortSeq(M \ {pin})
+    LET U == AscSeq(M \ {pin})
         k == Len(U)
         A == [r \in 1..k |-> [c \in 1..k |-> Coef(coll, M, K, U[r], U[c])]]
         b == [r \in 1..k |-> Rhs(coll, M, K, U[r])]
